@@ -2,6 +2,7 @@ package absint
 
 import (
 	"go/types"
+	"sort"
 	"strings"
 )
 
@@ -28,7 +29,8 @@ func (e *Engine) load(st *State, p PtrV, field string, t types.Type) AVal {
 		return c.V
 	}
 	if p.Arr != "" {
-		for _, c := range st.cells {
+		for _, ck := range sortedCellKeys(st) {
+			c := st.cells[ck]
 			if c.P.Arr == p.Arr && c.F == field && c.V != nil && c.P.Key != p.Key && e.proveEQ(st, c.P.Idx, p.Idx) {
 				return c.V
 			}
@@ -39,6 +41,24 @@ func (e *Engine) load(st *State, p PtrV, field string, t types.Type) AVal {
 		st.cells[k] = Cell{p, field, v}
 	}
 	return v
+}
+
+func sortedCellKeys(st *State) []string {
+	ks := make([]string, 0, len(st.cells))
+	for k := range st.cells {
+		ks = append(ks, k)
+	}
+	sort.Strings(ks)
+	return ks
+}
+
+func sortedMaskKeys(st *State) []string {
+	ks := make([]string, 0, len(st.masks))
+	for k := range st.masks {
+		ks = append(ks, k)
+	}
+	sort.Strings(ks)
+	return ks
 }
 
 func (e *Engine) fresh(st *State, p PtrV, field string, t types.Type) AVal {
